@@ -50,3 +50,4 @@ include!("c05.rs");
 include!("c04.rs");
 include!("c06.rs");
 include!("c07.rs");
+include!("c19.rs");
